@@ -120,13 +120,25 @@ func c06Gate(r *core.Run, p *core.Prog) {
 	}
 	// the broken flag: bool local declared in the loop body and assigned true somewhere
 	var flag types.Object
+	cands := map[types.Object]bool{}
 	core.Walk(loop.Body, false, func(x ast.Node) bool {
 		if a, ok := x.(*ast.AssignStmt); ok && len(a.Lhs) == 1 && len(a.Rhs) == 1 {
 			if id, ok := ast.Unparen(a.Rhs[0]).(*ast.Ident); ok && id.Name == "true" {
 				if o := core.ObjOf(info, a.Lhs[0]); o != nil {
 					if b, ok := o.Type().Underlying().(*types.Basic); ok && b.Kind() == types.Bool {
-						flag = o
+						cands[o] = true
 					}
+				}
+			}
+		}
+		return true
+	})
+	// among the boolean locals set to true, the flag is the one that gates a `continue` of the block loop
+	core.Walk(loop.Body, false, func(x ast.Node) bool {
+		if ifs, ok := x.(*ast.IfStmt); ok && len(ifs.Body.List) > 0 {
+			if o := core.ObjOf(info, ifs.Cond); o != nil && cands[o] {
+				if br, isBr := ifs.Body.List[len(ifs.Body.List)-1].(*ast.BranchStmt); isBr && br.Tok == token.CONTINUE {
+					flag = o
 				}
 			}
 		}
